@@ -221,7 +221,7 @@ func runC19(c *engine.Ctx) {
 			continue
 		}
 		for fl := 0; fl < 4; fl++ {
-			for sp := 0; sp < 4; sp++ {
+			for sp := 0; sp < 6; sp++ {
 				c19Header(c, []int{ex, fl, sp})
 			}
 		}
@@ -368,7 +368,7 @@ func c19Wire(c *engine.Ctx, cs c19Case, opname string, cont message.IKEPayloadCo
 
 // ---- argument sweeps -----------------------------------------------------------
 
-const c19SweepKinds = 9
+const c19SweepKinds = 10
 
 func c19SweepArgs(kind int, thorough bool) [][]int {
 	var out [][]int
@@ -420,6 +420,13 @@ func c19SweepArgs(kind int, thorough bool) [][]int {
 		for v := 0; v < 256; v++ {
 			out = append(out, []int{v})
 		}
+	case 9: // Delete: SPI count argument × length of the SPI list (they need not agree)
+		for n := 0; n <= 4; n++ {
+			for l := 0; l <= 4; l++ {
+				out = append(out, []int{n, l})
+			}
+		}
+		out = append(out, []int{16381, 16381}, []int{16382, 16382}, []int{1, 16382}, []int{65535, 2})
 	}
 	return out
 }
@@ -454,6 +461,7 @@ func c19Sweep(c *engine.Ctx, kind int, a []int) {
 	var exp []ref.Payload
 	over := false
 	name := ""
+	fieldErr := ""
 	pi := engine.Catch(func() {
 		switch kind {
 		case 0:
@@ -595,8 +603,36 @@ func c19Sweep(c *engine.Ctx, kind int, a []int) {
 			cont.BuildEAPfailure(uint8(a[0]))
 			exp = []ref.Payload{{T: ref.PEAP, EAP: &ref.EAP{Code: 1, ID: uint8(a[0]), Method: 254, VID: 10415, VType: 3, Data: []byte{1, 0}}},
 				{T: ref.PEAP, EAP: &ref.EAP{Code: 3, ID: uint8(a[0])}}, {T: ref.PEAP, EAP: &ref.EAP{Code: 4, ID: uint8(a[0])}}}
+		case 9:
+			name = "BuildDeletePayload(count,list)"
+			n, l := a[0], a[1]
+			list := make([]uint32, l)
+			for i := range list {
+				list[i] = uint32(i+1) * 0x01010101
+			}
+			given := append([]uint32(nil), list...)
+			cont.BuildDeletePayload(3, 4, uint16(n), list)
+			if len(cont) == 1 {
+				if d, ok := cont[0].(*message.Delete); ok {
+					same := len(d.SPIs) == len(given)
+					for i := 0; same && i < len(given); i++ {
+						same = d.SPIs[i] == given[i]
+					}
+					if !same || d.NumberOfSPI != uint16(n) || d.SPISize != 4 || d.ProtocolID != 3 {
+						fieldErr = fmt.Sprintf("payload holds protocol %d, SPI size %d, count %d, %d SPIs; arguments were 3, 4, %d and a list of %d", d.ProtocolID, d.SPISize, d.NumberOfSPI, len(d.SPIs), n, len(given))
+					}
+				}
+			}
+			over = n != l || 8+4*l > 65535
+			if !over {
+				exp = []ref.Payload{{T: ref.PDelete, B: 3, SSize: 4, NSPI: uint16(n), SPIs: given}}
+			}
 		}
 	})
+	if fieldErr != "" {
+		c.Violate("fields/"+name, fieldErr, cs)
+		return
+	}
 	if pi != nil {
 		c.Violate(pi.Sig(), fmt.Sprintf("%s(%v) panics: %s", name, a, pi.Value), cs)
 		return
@@ -639,7 +675,7 @@ func c19Header(c *engine.Ctx, a []int) {
 	cs := c19Case{K: "header", Args: a}
 	ex, fl, sp := uint8(a[0]), a[1], a[2]
 	resp, init := fl&1 != 0, fl&2 != 0
-	spis := [][3]uint64{{0, 0, 0}, {1, 2, 3}, {^uint64(0), 1 << 63, 0xffffffff}, {0x0102030405060708, 0x1112131415161718, 0x80000000}}[sp]
+	spis := [][3]uint64{{0, 0, 0}, {1, 2, 3}, {^uint64(0), 1 << 63, 0xffffffff}, {0x0102030405060708, 0x1112131415161718, 0x80000000}, {0x0102030405060708, 0, 0}, {0, 7, 1}}[sp]
 	h := message.NewHeader(spis[0], spis[1], ex, resp, init, uint32(spis[2]), 0, nil)
 	var pl message.IKEPayloadContainer
 	pl.BuildNonce([]byte{1, 2, 3})
